@@ -356,10 +356,11 @@ def contracts():
     from .c19_rename import RenameGate
     from .c14_loop import IntoBench
     from .c02_order import OrderList, OrderInOut
-    order = [OrderList(k) for k in (0, 1, 2, 3)] + [OrderInOut(w, k) for w in ('in', 'out') for k in (0, 1, 2)]
+    deep = env.TIER == 'thorough'
+    order = [OrderList(k) for k in ((0, 1, 2, 3, 4) if deep else (0, 1, 2, 3))] + [OrderInOut(w, k) for w in ('in', 'out') for k in ((0, 1, 2, 3) if deep else (0, 1, 2))]
     return order + [RenameGate(), IntoBench(), UserPrim('_add_user'), UserPrim('_remove_user'),
             AddGateLike('_emplace_gate', False), AddGateLike('_add_gate', False), AddGateLike('emplace_gate', True), AddGateLike('add_gate', True),
-            RemoveGate(), MarkAsOutput(), SetOutputs(), DeleteBlock()] + [SetInputs(k) for k in (0, 1, 2, 3)] + [AddInputs(k) for k in (0, 1, 2)]
+            RemoveGate(), MarkAsOutput(), SetOutputs(), DeleteBlock()] + [SetInputs(k) for k in ((0, 1, 2, 3, 4) if env.TIER == 'thorough' else (0, 1, 2, 3))] + [AddInputs(k) for k in ((0, 1, 2, 3) if env.TIER == 'thorough' else (0, 1, 2))]
 
 
 
